@@ -3,9 +3,10 @@ EXTENDS FreeEnergy
 P(ref, lock, cs, cl, cg, Tm20, Tb20, Sfus20, Svap20, S0_20) ==
   [ref |-> ref, lock |-> lock, cs |-> cs, cl |-> cl, cg |-> cg, Tm20 |-> Tm20, Tb20 |-> Tb20, Sfus20 |-> Sfus20, Svap20 |-> Svap20,
    Hfus400 |-> Sfus20 * Tm20, Hvap400 |-> Svap20 * Tb20, S0_20 |-> S0_20]
-\* melting / boiling points on both sides of T_ref = 298.15 K (5963): (250, 400), (300, 350), (200, 280), (320, 450)
+\* melting / boiling points on both sides of T_ref = 298.15 K (5963): (250, 400), (300, 350), (200, 280), (320, 450), and one
+\* chemical that melts ABOVE its boiling point (350, 280: sublimes at atmospheric pressure, like CO2)
 c_Grid == {P(ref, "none", cs, cl, cg, tt[1], tt[2], sf, 7, s0) :
-             ref \in {"s", "l", "g"}, cs \in {1, 2}, cl \in {1, 3}, cg \in {2}, tt \in {<<5000, 8000>>, <<6000, 7000>>, <<4000, 5600>>, <<6400, 9000>>},
+             ref \in {"s", "l", "g"}, cs \in {1, 2}, cl \in {1, 3}, cg \in {2}, tt \in {<<5000, 8000>>, <<6000, 7000>>, <<4000, 5600>>, <<6400, 9000>>, <<7000, 5600>>},
              sf \in {2}, s0 \in {0, 100}}
           \cup {P(lk, lk, 1, cl, 2, tt[1], tt[2], 2, 7, s0) : lk \in {"s", "l", "g"}, cl \in {1, 3}, tt \in {<<5000, 8000>>, <<6000, 7000>>}, s0 \in {0, 100}}
 =============================================================================
